@@ -336,6 +336,15 @@ def _execute(sc, sim, out):
         rf = pipe.call(pipe.Fitter, names, ap, d, extinction_law=W.extinction(), av_range=list(sc['av_range']),
                        distance_range=list(sc['drange']) * pipe.u.kpc)
         infos = []
+        intr = None
+        if rf[0] == 'ok' and sc.get('intruder'):
+            Wi = World(prelude_spec(spec, random.Random(sc['theta_seed'] + 7)))
+            di = Wi.write(sim.path('other_pkg'))
+            if pipe.call(pipe.convolve_model_dir, di, Wi.filters())[0] == 'ok':
+                ri = pipe.call(pipe.Fitter, names, ap, di, extinction_law=Wi.extinction(), av_range=list(sc['av_range']),
+                               distance_range=list(sc['drange']) * pipe.u.kpc, remove_resolved=Wi.apdep)
+                if ri[0] == 'ok':
+                    intr = ri[1]              # alive from now on
         if rf[0] == 'ok':
             for ln in lines:
                 ri = pipe.call(rf[1].fit, pipe.Source.from_ascii(ln))
@@ -346,16 +355,10 @@ def _execute(sc, sim, out):
             out.violate('stage-failed', 'object interface could not fit the planted sources', key='object-route')
         else:
             out.probe('object_route')
-            if sc.get('intruder'):
-                Wi = World(prelude_spec(spec, random.Random(sc['theta_seed'] + 7)))
-                di = Wi.write(sim.path('other_pkg'))
-                if pipe.call(pipe.convolve_model_dir, di, Wi.filters())[0] == 'ok':
-                    ri = pipe.call(pipe.Fitter, names, ap, di, extinction_law=Wi.extinction(), av_range=list(sc['av_range']),
-                                   distance_range=list(sc['drange']) * pipe.u.kpc)
-                    if ri[0] == 'ok':
-                        pipe.call(ri[1].fit, pipe.Source.from_ascii(lines[0]))
-                        out.probe('intruder_fit')
-                        sim.fired('intruder_fit')
+            if intr is not None:
+                pipe.call(intr.fit, pipe.Source.from_ascii(lines[0]))
+                out.probe('intruder_fit')
+                sim.fired('intruder_fit')
             r = pipe.call(write_parameters, infos, outp + '.obj.txt')
             if r[0] != 'ok':
                 out.violate('stage-failed', 'write_parameters on result objects raised %s: %s' % (pipe.exc_name(r), r[1]), key='write_parameters-objects/%s' % pipe.exc_name(r))
